@@ -1,6 +1,7 @@
 package core
 
 import (
+	"strings"
 	"fmt"
 	"go/constant"
 	"go/token"
@@ -910,6 +911,14 @@ func nonNilByConstruction(v ssa.Value) bool {
 			continue
 		case *ssa.Alloc, *ssa.MakeClosure, *ssa.MakeMap, *ssa.MakeChan, *ssa.MakeSlice:
 			return true
+		case *ssa.UnOp:
+			// a package-level sentinel error (io.EOF, io.ErrUnexpectedEOF, ErrXxx) that nothing assigns after initialisation
+			if g, isG := x.X.(*ssa.Global); isG && x.Op == token.MUL && types.Identical(x.Type(), types.Universe.Lookup("error").Type()) {
+				if (strings.HasPrefix(g.Name(), "Err") || g.Name() == "EOF") && globalAssignedOnlyInInit(g) {
+					return true
+				}
+			}
+			return false
 		case *ssa.Call:
 			if f := x.Call.StaticCallee(); f != nil && f.Pkg != nil {
 				switch f.Pkg.Pkg.Path() + "." + f.Name() {
@@ -987,5 +996,39 @@ func isSelector(f *ssa.Function) bool {
 		}
 	}
 	selectorCache[f] = ok
+	return ok
+}
+
+
+var globalInitOnly = map[*ssa.Global]bool{}
+
+// globalAssignedOnlyInInit: no function other than its package's initialiser stores to g.
+func globalAssignedOnlyInInit(g *ssa.Global) bool {
+	if v, ok := globalInitOnly[g]; ok {
+		return v
+	}
+	ok := true
+	if refs := g.Referrers(); refs != nil {
+		// globals have no referrer lists in go/ssa: fall through to the scan below
+		_ = refs
+	}
+	if g.Pkg != nil {
+		for _, m := range g.Pkg.Members {
+			f, isF := m.(*ssa.Function)
+			if !isF || f.Name() == "init" {
+				continue
+			}
+			for _, h := range DeepFuncs(f) {
+				for _, b := range h.Blocks {
+					for _, in := range b.Instrs {
+						if st, isSt := in.(*ssa.Store); isSt && st.Addr == ssa.Value(g) {
+							ok = false
+						}
+					}
+				}
+			}
+		}
+	}
+	globalInitOnly[g] = ok
 	return ok
 }
